@@ -540,6 +540,115 @@ def text_tree():
     nodes.append(Obj('FirstOrderStatsNode', {'descriptor': descs[mk], 'index': mk}))
     return nodes, descs, vals
 
+def _attr_tree(nodes, vals):
+    """Reference: the (value, [attributes...]) structure the node tree prescribes, in document order."""
+    out = []
+    for n in nodes:
+        f = n.fields
+        if 'index' in f and f['index'] < len(vals):
+            out.append(('value', vals[f['index']], _attr_tree(f.get('attributes') or [], vals)))
+        if 'factor' in f and isinstance(f['factor'], Obj):
+            out.extend(_attr_tree([f['factor']], vals))
+        if isinstance(f.get('members'), list):
+            out.extend(_attr_tree(f['members'], vals))
+    return out
+
+
+def _attr_tree_json(entries):
+    out = []
+    for e in entries:
+        if isinstance(e, list):
+            out.extend(_attr_tree_json(e))
+            continue
+        if not isinstance(e, dict):
+            continue
+        if 'value' in e:
+            out.append(('value', e['value'], _attr_tree_json(e.get('attributes') or [])))
+        if isinstance(e.get('factor'), dict):
+            out.extend(_attr_tree_json([e['factor']]))
+        if isinstance(e.get('members'), list):
+            out.extend(_attr_tree_json(e['members']))
+    return out
+
+
+def _attr_tree_text(lines):
+    """(value text, [attribute lines below it]) per value line of the nested text; an attribute line is marked by '->' and is one
+    indentation level deeper than its owner."""
+    out = []
+    stack = []      # (indent, children list)
+    for l in lines:
+        body = l.lstrip(' .')
+        if not body or body.startswith('#'):
+            continue
+        indent = len(l) - len(body)
+        is_attr = body.startswith('-> ')
+        if is_attr:
+            body = body[3:]
+        words = body.split(' ')
+        if not is_attr and (len(words) < 2 or words[0][:1] in '123'):
+            # a structural line: operator, replication or sequence header (F = 1, 2, 3)
+            continue
+        entry = (words[0], [])
+        if is_attr:
+            while stack and stack[-1][0] >= indent:
+                stack.pop()
+            if not stack:
+                out.append(('orphan', words[0], []))
+                continue
+            stack[-1][1].append(entry)
+            stack.append((indent, entry[1]))
+        else:
+            out.append(entry)
+            stack = [(indent, entry[1])]
+    return out
+
+
+def rule_attributes_shown(repo, rule='C09.R10'):
+    """The hierarchical views show every attribute the node tree attaches - associated field, bitmapped quality / statistics value -
+    under its owner, whether the owner is a plain element or a replication factor: the nested JSON and nested text renderings are
+    folded on trees that carry attributes on both kinds of owner and compared, node by node, with the tree."""
+    rr = RuleResult(rule, 'hierarchical views: every attribute of the node tree is shown under its owner (element or replication factor)')
+    nodes, descs, vals = text_tree()
+    fd, md, qd = _elem(31001, 'DELAYED DESCRIPTOR REPLICATION FACTOR'), _elem(7004, 'PRESSURE'), _elem(33007, 'PER CENT CONFIDENCE', 'CODE TABLE')
+    ad = Obj('AssociatedDescriptor', {'id': 31001, 'nbits': 4, 'unit': 'ASSOCIATED'})
+    qn = Obj('QualityInfoNode', {'descriptor': qd, 'index': 3})
+    an = Obj('AssociatedFieldNode', {'descriptor': ad, 'index': 0, 'attributes': []})
+    frep = Obj('DelayedReplicationNode', {'descriptor': Obj('DelayedReplicationDescriptor', {'id': 101000, 'members': [md], 'factor': fd}),
+                                          'factor': Obj('ValueDataNode', {'descriptor': fd, 'index': 1, 'attributes': [an, qn]}),
+                                          'members': [Obj('ValueDataNode', {'descriptor': md, 'index': 2})]})
+    trees = [('elements, sequence, replication', nodes, descs, vals),
+             ('replication factor with associated field and quality value', [frep, qn], [ad, fd, md, qd], [2, 1, 850, 70])]
+    jn = repo.own_method('NestedJsonRenderer', '_render_template_data_nodes')
+    rn = repo.own_method('NestedTextRenderer', '_render_template_data_nodes')
+    for name, ns, ds, vs in trees:
+        want = _attr_tree(ns, vs)
+        it = TextInterp(repo, 'NestedJsonRenderer')
+        res = it.run_function(jn, lambda: {'self': Obj('NestedJsonRenderer', {}), 'decoded_nodes': list(ns), 'decoded_descriptors': list(ds),
+                                           'decoded_values': list(vs)}, self_class='NestedJsonRenderer')
+        if len(res) != 1 or not res[0].ok or not isinstance(res[0].value, list):
+            raise AnalysisError('NestedJsonRenderer._render_template_data_nodes could not be folded on the tree "%s": %s' % (name, [r.describe() for r in res]))
+        got = _attr_tree_json(res[0].value)
+        rr.instance('nested JSON of the tree "%s": %d values with their attributes' % (name, len(want)))
+        if got != want:
+            d = [(a, b) for a, b in zip(got, want) if a != b][:2] or [(len(got), len(want))]
+            rr.fail('nested-json:attributes:%s' % name.split(',')[0].replace(' ', '-'), jn.where, 'tree "%s": the nested JSON shows %s where the node tree has %s (value, '
+                    'attributes below it): an attribute is missing from, or misplaced under, its owner' % (name, d[0][0], d[0][1]), witness={'tree': name})
+        it = TextInterp(repo, 'NestedTextRenderer')
+        res = it.run_function(rn, lambda: {'self': Obj('NestedTextRenderer', {}), 'decoded_nodes': list(ns), 'decoded_descriptors': list(ds),
+                                           'decoded_values': list(vs), 'indent': ''}, self_class='NestedTextRenderer')
+        if len(res) != 1 or not res[0].ok or not isinstance(res[0].value, list):
+            raise AnalysisError('NestedTextRenderer._render_template_data_nodes could not be folded on the tree "%s"' % name)
+
+        def ids(t):
+            return [(len(a),) + tuple(ids(a)) for _, _, a in t] if t and len(t[0]) == 3 else [(len(a),) + tuple(ids(a)) for _, a in t]
+        got_t = _attr_tree_text(res[0].value)
+        rr.instance('nested text of the tree "%s"' % name)
+        if any(e[0] == 'orphan' for e in got_t) or ids(got_t) != ids(want):
+            rr.fail('nested-text:attributes:%s' % name.split(',')[0].replace(' ', '-'), rn.where, 'tree "%s": the attribute lines of the nested text are nested as %s; the node '
+                    'tree attaches them as %s (per value: number of attributes, recursively)' % (name, ids(got_t), ids(want)), witness={'lines': res[0].value})
+    rr.require_floor(4)
+    return rr
+
 
 def rule_r5(repo):
     rr = RuleResult('C09.R5', 'text renderings fold back to the flat values: every line kind and value shape, rendered and read back')
@@ -714,6 +823,7 @@ def run(repo, check):
         f.rule = 'C09.R6'
     check.add(r6)
     check.run_rule(rule_registered, repo)
+    check.run_rule(rule_attributes_shown, repo)
     from sa.rules.common import share
     share(check, repo, c06.rule_alias, 'C09.R8', 'node / link records: one per subset when uncompressed, one shared record when compressed (shared with C05.R3 / C06.R5)', args=('C09.R8',))
     from sa.rules import c03 as _c03
